@@ -28,6 +28,32 @@ impl DepOrder for IntOrder {
     }
 }
 
+thread_local! {
+    static OPT: RefCell<Vec<Vec<usize>>> = RefCell::new(vec![]);
+}
+/// a client whose `process` TOLERATES the failure of optional dependencies (it carries on without them)
+struct TolerantOrder;
+impl DepOrder for TolerantOrder {
+    type Item = usize;
+    type Error = ();
+    fn process(item: &usize, orderer: &mut DepOrderer<Self>) -> Result<(), ()> {
+        let opt: Vec<usize> = OPT.with(|a| a.borrow().get(*item).cloned().unwrap_or_default());
+        for d in opt { let _ = orderer.push(&d); }
+        let deps: Vec<usize> = ADJ.with(|a| a.borrow().get(*item).cloned().unwrap_or_default());
+        for d in deps { orderer.push(&d)?; }
+        Ok(())
+    }
+    fn fail() -> Result<(), ()> { Err(()) }
+}
+/// `dep.tolerant (required adj) (items) (optional adj)`: oracle only (the model has no optional edges)
+pub fn op_tolerant(args: &[Sexp]) -> String {
+    let (tbl, items) = match parse_graph(args) { Some(x) => x, None => return "bad-op".into() };
+    let opt = match parse_earlier(args, tbl.len()) { Some(Some(o)) => o, _ => return "bad-op".into() };
+    ADJ.with(|a| *a.borrow_mut() = tbl);
+    OPT.with(|a| *a.borrow_mut() = opt);
+    match TolerantOrder::order(&items) { Ok(v) => fmt_ok(&v), Err(_) => "err".into() }
+}
+
 pub fn parse_graph(args: &[Sexp]) -> Option<(Vec<Vec<usize>>, Vec<usize>)> {
     let adj = args.get(0)?.list()?;
     let mut tbl = vec![];
@@ -443,6 +469,17 @@ pub fn gen(thorough: bool, rng: &mut Rng, out: &mut Vec<String>) {
         let g0: Vec<String> = tbl0.iter().map(|r| format!("({})", r.iter().map(|x| x.to_string()).collect::<Vec<_>>().join(" "))).collect();
         out.push(format!("{} ({})", fmt_case(op, &tbl, &items), g0.join(" ")));
     }
+    // a client that tolerates failing optional dependencies (a cycle closed through an optional edge, an optional
+    // dependency that fails and is required or listed later)
+    for _ in 0..(if thorough { 4000 } else { 400 }) {
+        let n = 2 + rng.below(5) as usize;
+        let cy = rng.chance(1, 4); let tbl = random_graph(rng, n, cy);
+        let cy2 = rng.chance(1, 2); let opt = random_graph(rng, n, cy2);
+        let mut items: Vec<usize> = (0..n).collect();
+        shuffle(rng, &mut items);
+        let g0: Vec<String> = opt.iter().map(|r| format!("({})", r.iter().map(|x| x.to_string()).collect::<Vec<_>>().join(" "))).collect();
+        out.push(format!("{} ({})", fmt_case("dep.tolerant", &tbl, &items), g0.join(" ")));
+    }
     // random DAGs and cyclic graphs for the embedded orderers, up to hundreds of nodes
     let reps = if thorough { 1500 } else { 150 };
     for i in 0..reps {
@@ -524,6 +561,19 @@ pub fn oracle(line: &str) -> String {
     };
     let n = tbl.len();
     let res = crate::ops::run_line(line);
+    if op == "dep.tolerant" {
+        // whatever a tolerant client swallowed: an ordering that IS returned lists every listed item exactly once, each
+        // after its required dependencies
+        if res == "err" { return "pass".into(); }
+        let out: Vec<usize> = match Sexp::parse_all(&res).and_then(|r| r.get(1).and_then(|l| l.list().map(|v| v.iter().filter_map(|x| x.int().map(|i| i as usize)).collect()))) { Some(v) => v, None => return format!("fail {}", res) };
+        let mut seen = std::collections::HashSet::new();
+        for (k, x) in out.iter().enumerate() {
+            if !seen.insert(*x) { return format!("fail item {} listed twice", x); }
+            for d in tbl.get(*x).cloned().unwrap_or_default() { if !out[..k].contains(&d) { return format!("fail item {} is listed before its required dependency {}", x, d); } }
+        }
+        for i in &items { if !out.contains(i) { return format!("fail listed item {} is missing from the ordering that was returned", i); } }
+        return "pass".into();
+    }
     let dangling = tbl.iter().any(|r| r.iter().any(|d| *d >= n)) || items.iter().any(|i| *i >= n);
     if dangling && op != "dep.generic" {
         return if res == "err" { "pass".into() } else { format!("fail dangling reference not reported: {}", res) };
